@@ -236,6 +236,25 @@ class Escapes:
             return self.resolve_value(f, v.args[0], depth + 1)
         return []
 
+    _CONSUMERS = ('list', 'tuple', 'set', 'frozenset', 'sorted', 'sum', 'any', 'all', 'max', 'min', 'next', 'dict', 'enumerate', 'zip', 'iter')
+
+    def _is_generator(self, c):
+        node = getattr(c, 'node', None)
+        return isinstance(node, ast.FunctionDef) and any(isinstance(x, (ast.Yield, ast.YieldFrom)) for x in walk_shallow(node))
+
+    def _consumers_of(self, f, name, assign):
+        """places where the local `name` (bound by `assign` to a generator object) is iterated: for-loops, consuming builtins, yield from"""
+        out = []
+        for x in walk_shallow(f.node):
+            if isinstance(x, ast.For) and isinstance(x.iter, ast.Name) and x.iter.id == name:
+                out.append(x)
+            elif isinstance(x, ast.Call) and isinstance(x.func, ast.Name) and x.func.id in self._CONSUMERS and x.args and isinstance(x.args[0], ast.Name) \
+                    and x.args[0].id == name:
+                out.append(x)
+            elif isinstance(x, ast.YieldFrom) and isinstance(x.value, ast.Name) and x.value.id == name:
+                out.append(x)
+        return out
+
     def callees(self, f, call):
         fn = call.func
         if isinstance(fn, ast.Attribute) and isinstance(fn.value, ast.Name) and fn.value.id == 'self':
@@ -357,6 +376,22 @@ class Escapes:
             for (cn, x) in self.unbound_reads(f):
                 yield x, ['UnboundLocalError'], self.site(f, x, '<read of a possibly unbound local>')
         for n in body_nodes:
+            cons_ = None
+            if isinstance(n, ast.For) and isinstance(n.iter, ast.Name):
+                cons_ = n.iter
+            elif isinstance(n, ast.Call) and isinstance(n.func, ast.Name) and n.func.id in self._CONSUMERS and n.args and isinstance(n.args[0], ast.Name):
+                cons_ = n.args[0]
+            elif isinstance(n, ast.YieldFrom) and isinstance(n.value, ast.Name):
+                cons_ = n.value
+            if cons_ is not None and f.rd.is_local(cons_.id):
+                ns_ = f.cfg.nodes_for(n) if isinstance(n, ast.For) else f.cfg.node_of_stmt(n)
+                for dd in (f.rd.at(ns_[0], cons_.id) if ns_ else []):
+                    if dd.kind == 'assign' and isinstance(dd.value, ast.Call):
+                        gcs = self.callees(f, dd.value)
+                        if gcs and all(self._is_generator(c) for c in gcs):
+                            for c in gcs:
+                                for (cname, origin) in self.escapes(c):
+                                    yield n, [cname], origin
             if isinstance(n, ast.Raise):
                 if n.exc is None:
                     yield n, self.handler_types_for_bare_raise(f, n), self.site(f, n, 'raise')
@@ -389,6 +424,20 @@ class Escapes:
                     codec = n.args[0].value if n.args and isinstance(n.args[0], ast.Constant) else None
                     if not (isinstance(codec, str) and codec.lower().replace('-', '').replace('_', '') in ('latin1', 'iso88591')):   # latin1 decodes every byte
                         yield n, ['UnicodeDecodeError'], self.site(f, n, self.kind(n))
+                    # a codec name that is computed (not a constant, not a parameter of this function) may name no codec at all: LookupError - which no
+                    # `except UnicodeDecodeError` catches
+                    ca = n.args[0] if n.args else next((k.value for k in n.keywords if k.arg == 'encoding'), None)
+                    if ca is not None and not isinstance(ca, ast.Constant):
+                        computed = True
+                        if isinstance(ca, ast.Name):
+                            ns_ = f.cfg.node_of_stmt(n)
+                            ds_ = f.rd.at(ns_[0], ca.id) if ns_ else []
+                            if ds_ and all(d_.kind == 'param' or (d_.value is not None and isinstance(d_.value, ast.Constant)) for d_ in ds_):
+                                computed = False
+                            if not ds_ and not f.rd.is_local(ca.id):
+                                computed = False        # a module-level constant
+                        if computed:
+                            yield n, ['LookupError'], self.site(f, n, '<bytes>.decode(<computed codec name>)')
                 elif isinstance(n.func, ast.Name) and f.rd.is_local(n.func.id) and any(
                         dd.value is not None and isinstance(dd.value, ast.Call) and dotted(dd.value.func) == 'getattr' and len(dd.value.args) >= 2
                         and isinstance(dd.value.args[1], ast.Constant) and dd.value.args[1].value == 'decode'
@@ -414,6 +463,13 @@ class Escapes:
                     yield n, ['TypeError', 'ValueError'], self.site(f, n, self.kind(n))
                 # resolved callees
                 cs = self.callees(f, n)
+                if cs and all(self._is_generator(c) for c in cs):
+                    # calling a generator function runs nothing: its body runs where the generator object is consumed.  When the object is parked in a
+                    # local first, those places are the `for` loops / list() / next() .. over that local (handled there); otherwise here
+                    par_ = getattr(n, '_p', None)
+                    if isinstance(par_, ast.Assign) and par_.value is n and len(par_.targets) == 1 and isinstance(par_.targets[0], ast.Name) \
+                            and self._consumers_of(f, par_.targets[0].id, par_):
+                        continue
                 if cs:
                     for c in cs:
                         for (cname, origin) in self.escapes(c):
